@@ -16,6 +16,7 @@ impl VectorMath for [F] {
     #[verifier::external_body] fn axpby(&mut self, a: F, x: &[F], b: F) -> (r: &mut Self) { unimplemented!() }
     #[verifier::external_body] fn waxpby(&mut self, a: F, x: &[F], b: F, y: &[F]) -> (r: &mut Self) { unimplemented!() }
     #[verifier::external_body] fn dot(&self, y: &[F]) -> (r: F) { unimplemented!() }
+    #[verifier::external_body] fn sum(&self) -> (r: F) { unimplemented!() }
     #[verifier::external_body] fn sumsq(&self) -> (r: F) { unimplemented!() }
     #[verifier::external_body] fn norm(&self) -> (r: F) { unimplemented!() }
     #[verifier::external_body] fn norm_inf(&self) -> (r: F) { unimplemented!() }
